@@ -39,6 +39,8 @@ pub struct SimCfg {
     /// rumor created_at drawn from this many distinct values (ties for C18)
     pub rumor_ts_values: u64,
     pub second_group: bool,
+    /// flow control that keeps every fork within the configured retention depth
+    pub bounded_depth: bool,
 }
 
 impl SimCfg {
@@ -66,6 +68,7 @@ impl SimCfg {
             mdk_cfg: MdkConfig::default(),
             rumor_ts_values: 3,
             second_group: false,
+            bounded_depth: true,
         }
     }
 }
@@ -313,8 +316,11 @@ impl World {
         let gid = self.gid(g);
         let before = self.clients[m].state(g, &gid);
         let first = !self.clients[m].first_result.contains_key(&idx);
+        self.clients[m].offers += 1;
         if first {
             self.clients[m].first_offer_state.insert(idx, before.clone());
+            let seq = self.clients[m].offers;
+            self.clients[m].first_offer_seq.insert(idx, seq);
         }
         self.clients[m].seen.insert(idx);
         let nb = self.clients[m].cb.0.lock().unwrap().len();
@@ -338,6 +344,9 @@ impl World {
         self.clients[m].rollbacks_seen += out.rollbacks.len();
         if first {
             self.clients[m].first_result.insert(idx, out.class.clone());
+        }
+        if !out.rollbacks.is_empty() && is_refusal(&out.class) {
+            self.clients[m].rollback_then_refused.push(idx);
         }
         let changed = before != after;
         if changed {
@@ -399,6 +408,23 @@ impl World {
             let _ = cidx;
         }
         out
+    }
+
+    /// Oldest commit in the log that member `m` has not been offered yet, is eligible, and was
+    /// created `retention - 1` or more epochs below m's current epoch: it must be delivered before
+    /// m moves on, or a rollback to it would need a snapshot that retention has already pruned.
+    pub fn overdue_commit(&self, m: usize, g: usize, retention: usize, causal: bool, proposals_first: bool) -> Option<usize> {
+        let gid = self.gid(g);
+        let cur = self.clients[m].state(g, &gid)?.1;
+        (0..self.log.len()).find(|i| {
+            let p = &self.log[*i];
+            p.g == g && p.kind == PubKind::Commit && !self.clients[m].seen.contains(i) && p.at.1 + (retention as u64) <= cur + 1 && self.eligible(m, *i, causal, proposals_first)
+        })
+    }
+
+    pub fn max_epoch(&self, g: usize) -> u64 {
+        let gid = self.gid(g);
+        self.clients.iter().enumerate().filter(|(i, _)| Some(*i) != self.groups[g].oracle).filter_map(|(_, c)| c.state(g, &gid)).map(|s| s.1).max().unwrap_or(0)
     }
 
     pub fn eligible(&self, m: usize, idx: usize, causal: bool, proposals_first: bool) -> bool {
